@@ -1,6 +1,5 @@
 import EdpVerif.Impl.CmpArms
 import EdpVerif.Impl.EqHash
-import EdpVerif.Generated.Misc
 /-!
 What the models of the term order, of `==` and of `Hash` transcribe from the source, as literal tables, to be compared
 with the tables the translator regenerates from term.rs / borrowed.rs / types.rs on every run (tools/gen_misc.py `gen_c11`).
